@@ -102,23 +102,28 @@ theorem equalCond_eq (e s : Int) : Gen.BoundedFuncs.equalCond e s = decide (e = 
 theorem equal_return :
     Gen.BoundedFuncs.equalReturn = "start_date.astimezone(timezone) if timezone else start_date" := rfl
 
-/-- the clamp (919a3ea): the Faker result is `max`ed with the start expressed in the result's zone -/
+/-- the clamp (919a3ea, a6412d5): the Faker result is `max`ed with the start and `min`ed with the end,
+    both expressed in the result's zone -/
 theorem clamp_value :
     Gen.BoundedFuncs.clampValue =
       "self._faker_for_dates.date_time_between(start_date, end_date, tzinfo=timezone)" := rfl
 theorem clamp_earliest :
     Gen.BoundedFuncs.clampEarliest =
       ["start_date.astimezone(timezone)", "(start_date - start_date.utcoffset()).replace(tzinfo=None)"] := rfl
-theorem clamp_return : Gen.BoundedFuncs.clampReturn = "max(value, earliest)" := rfl
+theorem clamp_latest :
+    Gen.BoundedFuncs.clampLatest =
+      ["end_date.astimezone(timezone)", "(end_date - end_date.utcoffset()).replace(tzinfo=None)"] := rfl
+theorem clamp_return : Gen.BoundedFuncs.clampReturn = "min(max(value, earliest), latest)" := rfl
 
 /-- the model's order check and equal-bounds check are the pinned comparisons; the draw is clamped
-    from below to the start -/
+    to the start from below and to the end from above -/
 theorem datetimeBetweenWith_uses_pin (call : TzCall) (c : Clock) (s e : DTSpec) (d : Nat) :
     datetimeBetweenWith call c s e d =
       if Gen.BoundedFuncs.orderCond (normalise call c e) (normalise call c s) = true then .orderError
       else if Gen.BoundedFuncs.equalCond (normalise call c e) (normalise call c s) = true then
         .value (normalise call c s)
-      else clampLow (normalise call c s) (fakerBetween (normalise call c s) (normalise call c e) d) := by
+      else clampHigh (normalise call c e)
+        (clampLow (normalise call c s) (fakerBetween (normalise call c s) (normalise call c e) d)) := by
   simp [datetimeBetweenWith, Gen.BoundedFuncs.orderCond, Gen.BoundedFuncs.equalCond]
 
 theorem datetime_between_body :
@@ -128,8 +133,8 @@ theorem datetime_between_body :
        "if end_date < start_date: ;     raise DataGenError('End date is before start date')",
        "if end_date == start_date: ;     return start_date.astimezone(timezone) if timezone else start_date",
        "value = self._faker_for_dates.date_time_between(start_date, end_date, tzinfo=timezone)",
-       "if timezone: ;     earliest = start_date.astimezone(timezone) ; else: ;     earliest = (start_date - start_date.utcoffset()).replace(tzinfo=None)",
-       "return max(value, earliest)"] := rfl
+       "if timezone: ;     earliest = start_date.astimezone(timezone) ;     latest = end_date.astimezone(timezone) ; else: ;     earliest = (start_date - start_date.utcoffset()).replace(tzinfo=None) ;     latest = (end_date - end_date.utcoffset()).replace(tzinfo=None)",
+       "return min(max(value, earliest), latest)"] := rfl
 
 theorem date_dispatch_guard :
     Gen.BoundedFuncs.dateDispatchGuard =
